@@ -4,7 +4,7 @@ open BluetoeModel.Util BluetoeModel.Bootloader
 
 def effStr : Effect → String
   | .readMem a n => s!"readMem {a} {n}"
-  | .startFlash a n d => s!"startFlash {a} {n} {d}"
+  | .startFlash a n v => s!"startFlash {a} {n} {digest v}"
   | .checksum a n => s!"checksum {a} {n}"
   | .publicRead a n => s!"publicRead {a} {n}"
   | .run a => s!"run {a}"
